@@ -7,7 +7,7 @@ import z3
 from ..interp import Frame, Interp, PanicEx, ReturnEx
 from ..prog import Program, Unsupported
 from ..values import NONE, UNIT, Opaque, REnum, RMap, RSet, RStruct, RTuple, RVec, Union, b_and, b_not, b_or, err, ok, simp, some
-from ..vfsworld import ABSENT, DIR, FILE, Hfin, Hinit, Hstep, VfsWorld, parent
+from ..vfsworld import ABSENT, DIR, FILE, LINK, Hfin, Hinit, Hstep, VfsWorld, parent
 from ..actors import tid
 
 
@@ -83,6 +83,9 @@ def listed_spec(world, e, files_res):
                 if exts is not None and not any(name.endswith(x) for x in exts):
                     continue
                 g = world.sym_kind(e, p) == FILE
+                if p in world.links:
+                    # a symbolic link that resolves to a regular file counts as that file (stat semantics, as Path::is_file)
+                    g = z3.Or(g, z3.And(world.sym_kind(e, p) == LINK, world.sym_kind(e, world.links[p]) == FILE))
                 out[p] = z3.Or(out[p], g) if p in out else g
     return out
 
